@@ -15,7 +15,7 @@ template <class SchemaLike> inline void BuildContext(SchemaLike& f) {
   f.Emplace(CstType::structured, "\xE2\x84\xAC(X1\xC3\x97X1)");     // S1 ::= B(X1 x X1)
   f.Emplace(CstType::structured, "\xE2\x84\xAC\xE2\x84\xAC(X1)");   // S2 ::= BB(X1)
   f.Emplace(CstType::axiom, "X1=X1");                         // A1
-  f.Emplace(CstType::term, "X1\\X2");                         // D1 : B(X1)
+  f.Emplace(CstType::term, "X1\\X1");                         // D1 : B(X1)
   f.Emplace(CstType::term, "card(X1)");                       // D2 : Z
   f.Emplace(CstType::function, "[\xCE\xB1\xE2\x88\x88\xE2\x84\xAC(R1), \xCE\xB2\xE2\x88\x88R1] \xCE\xB1\\{\xCE\xB2}");  // F1
   f.Emplace(CstType::predicate, "[\xCE\xB1\xE2\x88\x88\xE2\x84\xAC(R1)] \xCE\xB1=\xCE\xB1");                    // P1
